@@ -73,7 +73,7 @@ class Harness(cm.BaseA):
     assumptions = ["for a transfer that moves nothing the statement only forbids altering or dropping entries; the number of entries it adds is not fixed"]
 
     def depth(self, tier):
-        return 2 if tier == "quick" else 3
+        return 2 if tier == "quick" else 4
 
     def bounds(self, tier):
         return {"depth": self.depth(tier), "labware": "W1", "worklist_max_volume": 50}
@@ -214,6 +214,8 @@ class Harness(cm.BaseA):
                 pos += len(txt) - 1
             if pos >= 0 and rep[pos:] != "\n":
                 V.append(("C11/report", f"report of {n} has extra content"))
+        for d in cm.callers_arrays_unchanged(W, config):
+            V.append(("C11/snapshot-mutated", d))
         if changed:
             res["nontrivial"] = self.canon(W, config)
         return res
